@@ -201,10 +201,16 @@ class JavaRenderer:
             for i, n in enumerate(x[1]):
                 if i:
                     e.tok(",", glue=True)
-                e.tok(n, glue=(i == 0))
+                if isinstance(n, (list, tuple)):
+                    # explicitly typed lambda parameter `(Order o) -> ...`: a formalParameter of the grammar
+                    e.tok(n[0], glue=(i == 0))
+                    e.tok(n[1])
+                    self.events.append({"e": "formalParam", "name": n[1], "type": gtext(n[0])})
+                else:
+                    e.tok(n, glue=(i == 0))
             e.tok(")", glue=True)
             e.tok("->")
-            self.expr(x[2], True, var_text="(" + ",".join(x[1]) + ")")
+            self.expr(x[2], True, var_text=lambda_params_text(x[1]))
         elif k == "mref":
             idx = len(self.events)
             self.events.append(None)      # EnterExpression of the `::` expression fires before its children
@@ -567,12 +573,17 @@ def expr_text(x):
     if k == "field":
         return expr_text(x[1]) + "." + x[2]
     if k == "lambda":
-        return "(" + ",".join(x[1]) + ")->" + expr_text(x[2])
+        return lambda_params_text(x[1]) + "->" + expr_text(x[2])
     if k == "mref":
         return expr_text(x[1]) + "::" + x[2]
     if k == "paren":
         return "(" + expr_text(x[1]) + ")"
     raise ValueError(x)
+
+
+def lambda_params_text(ps):
+    """GetText() of a lambda's parameter list: `(a,b)` or `(Ordero,Repor)`"""
+    return "(" + ",".join(p if isinstance(p, str) else gtext(p[0]) + p[1] for p in ps) + ")"
 
 
 def ident_events(events):
